@@ -72,8 +72,9 @@ type Unit struct {
 	axiomErrs       []string
 	localLocs       map[string]map[string]string // function key -> source name -> structural locator
 	replayWhy       string
-	exitPc          string // path condition of the merged return state (reachability cover)
+	exitPc          string      // path condition of the merged return state (reachability cover)
 	retPcs          [][2]string // path condition and position of every return of the top-level function
+	edgePcs         [][2]string // path condition and description of every conditional CFG edge of the top-level function
 	lastMonBase     map[*Monitor]*monBase
 	enumTag         map[string]*enumInfo // slice term -> the map whose keys it enumerates (after the loop)
 	usedInvs        map[string]bool
@@ -886,6 +887,17 @@ func (fr *Frame) setEdge(from, to *ssa.BasicBlock, st *State, cond string) {
 	}
 	fr.orderCheck(from, to, e)
 	fr.edges[[2]int{from.Index, to.Index}] = e
+	if fr.depth == 0 && e.pc != "true" && e.pc != "false" && !e.dead {
+		// cover of the branch (thorough tier): which source line the edge leaves from
+		pos := ""
+		if n := len(from.Instrs); n > 0 {
+			if p := from.Instrs[n-1].Pos(); p.IsValid() {
+				pp := u.eng.fset.Position(p)
+				pos = fmt.Sprintf("%s:%d", shortFile(pp.Filename), pp.Line)
+			}
+		}
+		u.edgePcs = append(u.edgePcs, [2]string{e.pc, fmt.Sprintf("%s edge %d->%d at %s", u.name, from.Index, to.Index, pos)})
+	}
 }
 
 // ---------------------------------------------------------------------------------------------
